@@ -60,7 +60,39 @@ def universe():
     }
     U = L.Universe(t)
     U.vars = ["Vs", "Vp", "Vv", "VT", "VA", "Vn", "Vg", "Vd", "Vw", "f", "v"]
+    # what each variable was created from (for the construction check)
+    U.var_of = {"Vs": f, "Vp": f * g + c, "Vv": v, "VT": ufl.grad(v) + ufl.Identity(2), "VA": A, "Vn": Vs * g + Vs**2,
+                "Vg": ufl.grad(f * g), "Vd": ufl.diff(Vs**2 * g, Vs), "Vw": Vs}
     return U
+
+
+def check_variable_construction(run, U):
+    """v = variable(e) must be a NEW variable whose value is e: a Variable node with a label that does not occur in e
+    (otherwise "holding everything not expressed through v fixed" cannot be expressed: d/dv would also move e's own
+    variables).  One state per variable of the universe."""
+    from ufl.classes import Label, Variable
+    from ufl.corealg.traversal import unique_pre_traversal
+
+    for name, e in U.var_of.items():
+        v = U.t[name]
+        run.transitions += 1
+        run.states += 1
+        problems = []
+        if not isinstance(v, Variable):
+            problems.append(f"variable(e) returned a {type(v).__name__}")
+        else:
+            inner_labels = {n.count() for n in unique_pre_traversal(e) if isinstance(n, Label)}
+            if v.label().count() in inner_labels:
+                problems.append("the label of variable(e) already occurs inside e")
+            if repr(v.expression()) != repr(e):
+                problems.append("variable(e).expression() is not e")
+        run.validated += 1
+        if problems:
+            run.violation(
+                f"{PID}:variable-construction:{name}",
+                f"variable(e) for {name} = variable({str(e)[:60]}): " + "; ".join(problems),
+                {"variable": name, "e": repr(e)[:500], "result": repr(v)[:500]},
+            )
 
 
 SCALAR_FNS = ["sqrt", "exp", "ln", "sin", "cos", "tan", "sinh", "cosh", "tanh", "asin", "acos", "atan", "erf", "abs"]
@@ -150,6 +182,7 @@ def main(argv):
     chk = make_check(U, quick)
     if run.args.replay:
         return replay(run, U, envs, chk)
+    check_variable_construction(run, U)
     seen = set()
 
     def level(cands, lvl, sample_every=0):
@@ -242,6 +275,9 @@ def replay(run, U, envs, chk):
     def tup(x):
         return tuple(tup(y) for y in x) if isinstance(x, list) else x
 
+    if "variable" in rp["witness"] and "recipe" not in rp["witness"]:
+        check_variable_construction(run, U)
+        return run.finish()
     recipe = tup(rp["witness"]["recipe"])
     part = Part()
     check_recipe(recipe, U, envs, part, PID, extra_check=chk, compare=False)
